@@ -132,6 +132,94 @@ fn emit_chardef(out: &mut String) {
     writeln!(out, "pub const CHARDEF0_HEAD: [u32; 4] = {:?};", head).unwrap();
 }
 
+/// A 10-template bigram model with ragged rows and BOS/EOS entries, used by the C07 harnesses
+/// `c07_built_*`: the connectors are built natively by the *current* builders, the expected costs
+/// by the independent reference below (the defining feature-pair sum read off the three texts).
+const BIGRAM_RIGHT: &str = "1\tA,B,C,D,E,F,G,H,I,J\n2\tA,B\n3\tA,X,C,D,E,F,G,H,I,Y\n";
+const BIGRAM_LEFT: &str = "1\ta,b,c,d,e,f,g,h,i,j\n2\ta,b,c\n3\tq,b,c,d,e,f,g,h,i,z\n";
+const BIGRAM_COST: &str = "A/a\t3\nB/b\t5\nC/c\t-7\nJ/j\t11\nY/z\t13\nX/b\t17\nI/i\t19\nA/q\t23\nD/d\t-29\n/a\t100\n/c\t200\n/d\t300\n/j\t400\n/z\t500\n/q\t600\nC/\t1000\nJ/\t2000\nB/\t3000\nY/\t4000\nH/\t5000\n";
+
+fn bigram_reference() -> Vec<Vec<i32>> {
+    use std::collections::HashMap;
+    let rows = |text: &str| -> Vec<Vec<String>> {
+        let mut v = vec![vec![]]; // index 0 = BOS/EOS, filled below
+        for line in text.lines() {
+            let (_, feats) = line.split_once('\t').unwrap();
+            v.push(feats.split(',').map(|x| x.to_string()).collect());
+        }
+        v
+    };
+    let (mut r, mut l) = (rows(BIGRAM_RIGHT), rows(BIGRAM_LEFT));
+    let t = r.iter().chain(l.iter()).map(|x| x.len()).max().unwrap();
+    r[0] = vec![String::new(); t];
+    l[0] = vec![String::new(); t];
+    let mut cost: HashMap<(String, String), i32> = HashMap::new();
+    for line in BIGRAM_COST.lines() {
+        let (pair, c) = line.split_once('\t').unwrap();
+        let (a, b) = pair.split_once('/').unwrap();
+        cost.insert((a.to_string(), b.to_string()), c.parse().unwrap());
+    }
+    let mut want = vec![vec![0i32; l.len()]; r.len()];
+    for (i, rr) in r.iter().enumerate() {
+        for (j, ll) in l.iter().enumerate() {
+            for k in 0..t {
+                if let (Some(a), Some(b)) = (rr.get(k), ll.get(k)) {
+                    if let Some(c) = cost.get(&(a.clone(), b.clone())) {
+                        want[i][j] += *c;
+                    }
+                }
+            }
+        }
+    }
+    want
+}
+
+fn rows8(v: &[U31x8]) -> Vec<[u32; 8]> {
+    v.iter().map(|b| b.verif_to_array().map(|x| x.get())).collect()
+}
+
+fn emit_bigram(out: &mut String) {
+    let want = bigram_reference();
+    writeln!(out, "/// bigram model of the c07_built_* harnesses (right / left / cost)").unwrap();
+    writeln!(out, "pub const BIGRAM_TEXT: [&str; 3] = [{:?}, {:?}, {:?}];", BIGRAM_RIGHT, BIGRAM_LEFT, BIGRAM_COST).unwrap();
+    writeln!(out, "/// defining feature-pair sums [right id][left id], computed by the generator's own reference").unwrap();
+    writeln!(out, "pub const BIGRAM_WANT: [[i32; {}]; {}] = {:?};", want[0].len(), want.len(), want).unwrap();
+    // dual connector built by the current builder
+    let d = DualConnector::from_readers(BIGRAM_RIGHT.as_bytes(), BIGRAM_LEFT.as_bytes(), BIGRAM_COST.as_bytes()).unwrap();
+    let m = d.verif_matrix_connector();
+    let arr = |out: &mut String, name: &str, ty: &str, v: String, n: usize| {
+        writeln!(out, "pub const {name}: [{ty}; {n}] = {v};").unwrap();
+    };
+    let md = m.verif_data().to_vec();
+    arr(out, "DUAL_M_DATA", "i16", format!("{:?}", md), md.len());
+    writeln!(out, "pub const DUAL_M_NR: usize = {};\npub const DUAL_M_NL: usize = {};", m.num_right(), m.num_left()).unwrap();
+    let (rm, lm) = (d.verif_right_conn_id_map().to_vec(), d.verif_left_conn_id_map().to_vec());
+    arr(out, "DUAL_RMAP", "u16", format!("{:?}", rm), rm.len());
+    arr(out, "DUAL_LMAP", "u16", format!("{:?}", lm), lm.len());
+    let (rr, lr) = (rows8(d.verif_right_feat_ids()), rows8(d.verif_left_feat_ids()));
+    arr(out, "DUAL_RROWS", "[u32; 8]", format!("{:?}", rr), rr.len());
+    arr(out, "DUAL_LROWS", "[u32; 8]", format!("{:?}", lr), lr.len());
+    let sc = d.verif_raw_scorer();
+    let (b, ch, co) = (sc.verif_bases().to_vec(), sc.verif_checks().to_vec(), sc.verif_costs().to_vec());
+    assert!(b.len() < 120 && ch.len() < 120 && md.len() < 120, "model too large for the harness bounds");
+    arr(out, "DUAL_BASES", "u32", format!("{:?}", b), b.len());
+    arr(out, "DUAL_CHECKS", "u32", format!("{:?}", ch), ch.len());
+    arr(out, "DUAL_COSTS", "i32", format!("{:?}", co), co.len());
+    // raw connector built by the current builder
+    let r = RawConnector::from_readers(BIGRAM_RIGHT.as_bytes(), BIGRAM_LEFT.as_bytes(), BIGRAM_COST.as_bytes()).unwrap();
+    let (rr, lr) = (rows8(r.verif_right_feat_ids()), rows8(r.verif_left_feat_ids()));
+    arr(out, "RAW_RROWS", "[u32; 8]", format!("{:?}", rr), rr.len());
+    arr(out, "RAW_LROWS", "[u32; 8]", format!("{:?}", lr), lr.len());
+    writeln!(out, "pub const RAW_T: usize = {};", r.verif_feat_template_size()).unwrap();
+    let sc = r.verif_scorer();
+    let (b, ch, co) = (sc.verif_bases().to_vec(), sc.verif_checks().to_vec(), sc.verif_costs().to_vec());
+    assert!(b.len() < 120 && ch.len() < 120, "model too large for the harness bounds");
+    arr(out, "RAW_BASES", "u32", format!("{:?}", b), b.len());
+    arr(out, "RAW_CHECKS", "u32", format!("{:?}", ch), ch.len());
+    arr(out, "RAW_COSTS", "i32", format!("{:?}", co), co.len());
+    // sanity on the native side too (this is an ordinary test; the solver repeats it for all ids at once)
+}
+
 fn emit_images(out: &mut String) {
     for (name, kind, user, mapper) in [
         ("IMG_MATRIX", 0u8, false, false),
@@ -178,6 +266,7 @@ fn main() {
     emit_lex(&mut out, "LEX_DEEP", &[a, aa, aab, aba, b]);
     emit_images(&mut out);
     emit_chardef(&mut out);
+    emit_bigram(&mut out);
     let mut f = std::fs::File::create(format!("{dir}/gen.rs")).unwrap();
     f.write_all(out.as_bytes()).unwrap();
 }
